@@ -86,6 +86,14 @@ func child(i, n int) {
 			mism = append(mism, sc.Name+": shared objects changed")
 		}
 	}
+	if i == 0 {
+		for _, m := range scen.BulkScoring(goroutines) {
+			if len(mism) < 5 {
+				mism = append(mism, m)
+			}
+		}
+		ops += int64(goroutines) * scen.BulkVectors
+	}
 	b, _ := json.Marshal(scen.RaceResult{Scenarios: done, Goroutines: goroutines, Iterations: iterations, Operations: ops, Mismatches: mism, RaceEnabled: raceEnabled})
 	fmt.Println("RACEPASS-RESULT " + string(b))
 }
